@@ -608,10 +608,8 @@ class Terms:
         tj = self.b.locals[l]["tyj"]
         if tj["k"] != "adt":
             return False
-        if tj["path"] in self.CONTAINERS:
-            return True
-        # a crate-local struct that is mutated in place through &mut calls (e.g. the NFA builder)
-        if tj.get("krate") == self.b.crate.name:
+        # a collection / crate-local struct that is mutated in place through &mut calls
+        if tj["path"] in self.CONTAINERS or tj.get("krate") == self.b.crate.name:
             return any(d[0] == "mutby" for d in self.b.defs().get(l, []))
         return False
 
